@@ -537,13 +537,29 @@ pub fn boundary_for(c: &mut Choice, file_len: usize, own: u64) -> u64 {
     }
 }
 
+/// A section was moved from index `from` to index `to` (to < from): renumber the section-index fields.
+fn insert_fix_links(f: &mut FileSpec, to: usize, from: usize) {
+    let map = |v: u32| -> u32 {
+        let v = v as usize;
+        (if v == from { to } else if v >= to && v < from { v + 1 } else { v }) as u32
+    };
+    for s in f.secs.iter_mut() {
+        if matches!(s.hdr.sh_type, SHT_SYMTAB | SHT_DYNSYM | SHT_DYNAMIC | SHT_HASH | SHT_GNU_HASH | SHT_REL | SHT_RELA | SHT_GNU_VERSYM | SHT_GNU_VERNEED | SHT_GNU_VERDEF | 17 | 18) {
+            s.hdr.sh_link = map(s.hdr.sh_link);
+        }
+        if matches!(s.hdr.sh_type, SHT_REL | SHT_RELA) {
+            s.hdr.sh_info = map(s.hdr.sh_info);
+        }
+    }
+}
+
 /// Insert `k` empty sections at index `at` and renumber everything that refers to a section by index.
 pub fn insert_fillers(f: &mut FileSpec, at: usize, k: usize) {
     let at = at.min(f.secs.len());
     let bump = |v: u32| -> u32 { if v as usize >= at { v + k as u32 } else { v } };
     for s in f.secs.iter_mut() {
         // sh_link is a section index for these types; sh_info too for relocation sections
-        if matches!(s.hdr.sh_type, SHT_SYMTAB | SHT_DYNSYM | SHT_DYNAMIC | SHT_HASH | SHT_GNU_HASH | SHT_REL | SHT_RELA | SHT_GNU_VERSYM | SHT_GNU_VERNEED | SHT_GNU_VERDEF) {
+        if matches!(s.hdr.sh_type, SHT_SYMTAB | SHT_DYNSYM | SHT_DYNAMIC | SHT_HASH | SHT_GNU_HASH | SHT_REL | SHT_RELA | SHT_GNU_VERSYM | SHT_GNU_VERNEED | SHT_GNU_VERDEF | 17 | 18) {
             s.hdr.sh_link = bump(s.hdr.sh_link);
         }
         if matches!(s.hdr.sh_type, SHT_REL | SHT_RELA) {
@@ -808,6 +824,71 @@ pub fn rich_file(c: &mut Choice, o: &RichOpts) -> Rich {
             }
             f.add_sec(b".comment", SHT_STRTAB, b);
             kinds.push(Kind::Strtab);
+        }
+        // sections of types the crate has no accessor for (it must not care about them), some of them linked to a symbol
+        // table as the gABI prescribes, with right or wrong geometry; and the names debug tooling treats specially
+        let fk = c.u8();
+        if fk >= 200 {
+            let symsec = f.secs.iter().position(|s| s.hdr.sh_type == SHT_SYMTAB || s.hdr.sh_type == SHT_DYNSYM);
+            match fk % 7 {
+                0 | 1 => {
+                    // SHT_SYMTAB_SHNDX: one word per symbol of the linked table (or not)
+                    let nsym = symsec.map(|i| f.secs[i].body.len() / sym_size(enc)).unwrap_or(3);
+                    let n = if c.bool() { nsym } else { c.below(9) as usize };
+                    let i = f.add_sec(b".symtab_shndx", 18, vec![0u8; 4 * n + if c.chance(40) { 1 + c.below(3) as usize } else { 0 }]);
+                    f.secs[i].hdr.sh_link = symsec.unwrap_or(0) as u32;
+                    f.secs[i].hdr.sh_entsize = if c.chance(200) { 4 } else { c.val(16) };
+                    // (in a quarter of these files the symbol table it belongs to declares an entry size of 0 or another
+                    // wrong value: every accessor must refuse that table, none may divide by it)
+                    if let (Some(j), true) = (symsec, c.chance(64)) {
+                        f.secs[j].hdr.sh_entsize = *c.pick(&[0u64, 0, 1, 7, 0xffff]);
+                    }
+                    // (in a quarter of these files the section comes BEFORE its symbol table)
+                    if c.chance(64) && i > 1 {
+                        let s2 = f.secs.remove(i);
+                        f.secs.insert(1, s2);
+                        insert_fix_links(&mut f, 1, i);
+                        kinds.insert(1, Kind::Progbits);
+                        for v in note_secs.iter_mut() {
+                            if *v >= 1 && *v < i {
+                                *v += 1;
+                            }
+                        }
+                        if let Some(v) = i_dynamic.as_mut() {
+                            if *v >= 1 && *v < i {
+                                *v += 1;
+                            }
+                        }
+                    } else {
+                        kinds.push(Kind::Progbits);
+                    }
+                }
+                2 => {
+                    let i = f.add_sec(b".group", 17, { let mut w = W::new(enc); w.u32(1); w.u32(1); w.u32(2); w.buf });
+                    f.secs[i].hdr.sh_link = symsec.unwrap_or(0) as u32;
+                    f.secs[i].hdr.sh_info = c.below(4) as u32;
+                    f.secs[i].hdr.sh_entsize = 4;
+                    kinds.push(Kind::Progbits);
+                }
+                3 => {
+                    let i = f.add_sec(b".relr.dyn", 19, vec![0x11u8; word * c.below(5) as usize]);
+                    f.secs[i].hdr.sh_entsize = word as u64;
+                    kinds.push(Kind::Progbits);
+                }
+                4 => {
+                    f.add_sec(b".debug_info", SHT_PROGBITS, c.bytes(7));
+                    kinds.push(Kind::Progbits);
+                }
+                5 => {
+                    f.add_sec(b".zdebug_info", SHT_PROGBITS, b"ZLIB\0\0\0\0\0\0\0\x10xyz".to_vec());
+                    kinds.push(Kind::Progbits);
+                }
+                _ => {
+                    let i = f.add_sec(b".init_array", 14, vec![0u8; word * c.below(4) as usize]);
+                    f.secs[i].hdr.sh_entsize = word as u64;
+                    kinds.push(Kind::Progbits);
+                }
+            }
         }
         // section-name string table
         if !c.chance(24) {
